@@ -96,6 +96,7 @@ struct Scenario {
 struct Shared {
   std::map<const yaclib::Job*, std::string> job_name;
   std::map<std::string, bool> started;
+  std::map<std::string, int> run;  // 0 = suspended (or inside an await_suspend), 1 = running, 2 = finished
   std::map<unsigned long long, std::string> core_name;  // word stored in _sender -> coroutine
   // gate of the `lockw` form
   int gate_need = 0;
@@ -124,6 +125,16 @@ struct Exec final : yaclib::IExecutor {
 
   Type Tag() const noexcept final { return Type::Custom; }
   bool Alive() const noexcept final { return true; }
+  // resuming a coroutine that is not suspended is undefined behaviour: report it instead of doing it
+  static void CallJob(yaclib::Job& job) {
+    auto it = gS->job_name.find(&job);
+    if (it != gS->job_name.end() && gS->run[it->second] != 0) {
+      gS->Bad("coroutine " + it->second + " resumed although it is " + (gS->run[it->second] == 1 ? "running" : "finished") +
+              " (a resumption too many: not granted exactly once)");
+      return;
+    }
+    job.Call();
+  }
   void Submit(yaclib::Job& job) noexcept final {
     auto& ctx = *vx::gCtx;
     auto it = gS->job_name.find(&job);
@@ -136,7 +147,7 @@ struct Exec final : yaclib::IExecutor {
     if (ctx.Cur() == jn) ctx.NameSelf(jn + "'");  // a coroutine handing itself over: the rest is its tail
     if (workers == 0) {
       std::string saved = ctx.Cur();
-      job.Call();
+      CallJob(job);
       ctx.NameSelf(saved);
     } else {
       Enqueue(job);
@@ -153,7 +164,7 @@ struct Exec final : yaclib::IExecutor {
     while (!q.empty()) {
       auto* j = q.front();
       q.pop_front();
-      j->Call();
+      CallJob(*j);
     }
     --active;
   }
@@ -173,7 +184,8 @@ struct SelfAwaiter {
   yaclib::detail::BaseCore* await_resume() const noexcept { return core; }
 };
 
-#define ME() vx::gCtx->NameSelf(me)
+#define ME() (gS->run[me] = 1, vx::gCtx->NameSelf(me))
+#define AWAIT(...) ((gS->run[me] = 0), co_await (__VA_ARGS__))
 
 Exec* gExec = nullptr;
 const void* gSenderObj = nullptr;
@@ -226,11 +238,11 @@ template <bool Batching, bool FIFO>
 yaclib::Future<> Coro(const Scenario& sc, int id, yaclib::Mutex<Batching, FIFO>& m, Exec& ex) {
   const std::string me = "c" + std::to_string(id);
   ME();
-  auto* core = co_await SelfAwaiter{};
+  auto* core = AWAIT(SelfAwaiter{});
   vx::gCtx->NameVal(core, me);
   gS->job_name[static_cast<yaclib::Job*>(core)] = me;
   gS->core_name[reinterpret_cast<std::uintptr_t>(core)] = me;
-  co_await yaclib::On(ex);
+  AWAIT(yaclib::On(ex));
   ME();
   yaclib::UniqueGuard<yaclib::Mutex<Batching, FIFO>> pg;  // the guard of the `pguard` / `rtry` forms lives across rounds
   for (const Round& r : sc.prog[id]) {
@@ -238,13 +250,13 @@ yaclib::Future<> Coro(const Scenario& sc, int id, yaclib::Mutex<Batching, FIFO>&
       using G = yaclib::UniqueGuard<yaclib::Mutex<Batching, FIFO>>;
       if (r.acq == "dtry" || pg.Mutex() == nullptr) {
         if (r.acq == "pguard") {
-          pg = co_await m.Guard();
+          pg = AWAIT(m.Guard());
           ME();
         } else {
           pg = G{m, std::defer_lock};
         }
       } else if (r.acq == "pguard") {
-        co_await pg.Lock();
+        AWAIT(pg.Lock());
         ME();
       }
       if (r.acq != "pguard") {
@@ -263,9 +275,9 @@ yaclib::Future<> Coro(const Scenario& sc, int id, yaclib::Mutex<Batching, FIFO>&
       Enter(me);
       Exit(r.rel);
       if (r.rel == "gunlock") {
-        co_await pg.Unlock();
+        AWAIT(pg.Unlock());
       } else if (r.rel == "gunlockon") {
-        co_await pg.UnlockOn(ex);
+        AWAIT(pg.UnlockOn(ex));
       } else if (r.rel == "ghere") {
         pg.UnlockHere();
       } else {  // dtor
@@ -274,7 +286,7 @@ yaclib::Future<> Coro(const Scenario& sc, int id, yaclib::Mutex<Batching, FIFO>&
       ME();
     } else if (r.acq == "lock" || r.acq == "lockw" || r.acq == "trylock") {
       if (r.acq != "trylock") {
-        co_await m.Lock();
+        AWAIT(m.Lock());
         ME();
       } else if (!m.TryLock()) {
         vx::Ev("try_fail");
@@ -284,22 +296,22 @@ yaclib::Future<> Coro(const Scenario& sc, int id, yaclib::Mutex<Batching, FIFO>&
       }
       Enter(me);
       if (r.acq == "lockw") {
-        co_await GateAwaiter{};  // still inside the critical section
+        AWAIT(GateAwaiter{});  // still inside the critical section
         ME();
       }
       Exit(r.rel);
       if (r.rel == "unlock") {
-        co_await m.Unlock();
+        AWAIT(m.Unlock());
       } else if (r.rel == "unlockon") {
-        co_await m.UnlockOn(ex);
+        AWAIT(m.UnlockOn(ex));
       } else {
         m.UnlockHere();
       }
       ME();
     } else if (r.acq == "guard" || r.acq == "tryguard") {
-      yaclib::UniqueGuard<yaclib::Mutex<Batching, FIFO>> g;  // (no co_await inside ?: — g++ 12 miscompiles it)
+      yaclib::UniqueGuard<yaclib::Mutex<Batching, FIFO>> g;  // (no await inside ?: — g++ 12 miscompiles it)
       if (r.acq == "guard") {
-        g = co_await m.Guard();
+        g = AWAIT(m.Guard());
       } else {
         g = m.TryGuard();
       }
@@ -314,22 +326,22 @@ yaclib::Future<> Coro(const Scenario& sc, int id, yaclib::Mutex<Batching, FIFO>&
       Enter(me);
       Exit(r.rel);
       if (r.rel == "gunlock") {
-        co_await g.Unlock();
+        AWAIT(g.Unlock());
       } else if (r.rel == "gunlockon") {
-        co_await g.UnlockOn(ex);
+        AWAIT(g.UnlockOn(ex));
       } else if (r.rel == "ghere") {
         g.UnlockHere();
       }  // dtor: the guard is destroyed at the end of this block
       ME();
     } else {  // sticky
-      auto g = co_await m.GuardSticky();
+      auto g = AWAIT(m.GuardSticky());
       ME();
       Enter(me);
       Exit(r.rel);
       if (r.rel == "sunlock") {
-        co_await g.Unlock();
+        AWAIT(g.Unlock());
       } else if (r.rel == "gunlockon") {
-        co_await g.UnlockOn(ex);
+        AWAIT(g.UnlockOn(ex));
       } else if (r.rel == "ghere") {
         g.UnlockHere();
       }
@@ -341,6 +353,7 @@ yaclib::Future<> Coro(const Scenario& sc, int id, yaclib::Mutex<Batching, FIFO>&
   vx::Ev("done");
   ++gS->finished;
   GateArrive(me);
+  gS->run[me] = 2;
   co_return{};
 }
 
@@ -498,13 +511,45 @@ std::vector<Scenario> AllScenarios() {
   return out;
 }
 
+// the reduced set run against the library built WITHOUT symmetric transfer (`--set nosym`; YACLIB_TRANSFER is then
+// `handle.resume(); return true`): batched hand-over through co_await Unlock() / UnlockOn() / sticky unlock with two
+// waiters taken over at the previous unlock (forced by the gate), and a further round after the hand-over
+std::vector<Scenario> NosymScenarios() {
+  std::vector<std::vector<std::vector<Round>>> progs = {
+    {P({"lockw:unlock", "lock:unlock"}), P({"lock:unlock", "lock:unlock"}), P({"lock:unlock"})},
+    {P({"lockw:unlockon"}), P({"lock:unlockon", "lock:unlock"}), P({"guard:gunlockon", "guard:dtor"})},
+    {P({"lockw:here"}), P({"sticky:sunlock", "lock:unlock"}), P({"sticky:sunlock"})},
+  };
+  std::vector<Scenario> out;
+  for (int b = 0; b < 2; ++b)
+    for (int f = 0; f < 2; ++f)
+      for (const char* e : {"pool1", "pool2"})
+        for (auto& p : progs) out.push_back(Scenario{b != 0, f != 0, e, p, 1500});
+  return out;
+}
+
 }  // namespace
 
 int main(int argc, char** argv) {
   auto opt = vx::ParseOptions(argc, argv);
+  std::string set = "all";
+  for (int i = 1; i + 1 < argc; ++i) {
+    if (std::string(argv[i]) == "--set") set = argv[i + 1];
+  }
   vx::Explorer ex(opt);
   const auto user_max = ex.opt.max_exec;
-  for (auto& sc : AllScenarios()) {
+  auto scenarios = set == "nosym" ? NosymScenarios() : AllScenarios();
+  if (set == "full") {  // thorough tier of the non-symmetric pass: everything
+    for (auto& sc : NosymScenarios()) scenarios.push_back(sc);
+  }
+  if (!opt.only.empty() && set == "all") {  // a replay names its scenario by header, whichever set it came from
+    std::set<std::string> have;
+    for (auto& sc : scenarios) have.insert(sc.Header());
+    for (auto& sc : NosymScenarios()) {
+      if (have.insert(sc.Header()).second) scenarios.push_back(sc);
+    }
+  }
+  for (auto& sc : scenarios) {
     ex.opt.max_exec = sc.cap != 0 && sc.cap < user_max ? sc.cap : user_max;
     ex.Run(sc.Header(), [&] { RunScenario(sc); }, [&](bool done) { return Monitor(sc, done); });
   }
